@@ -107,7 +107,7 @@ inline bool hostile_payload(const uint8_t *p, size_t n)
 	uint8_t type = p[1];
 	if (type == wire::IPV4_PREFIX && n == 20) {
 		uint8_t len = p[9], mx = p[10];
-		if (len > 32 || mx > 32 || mx < len || p[11] != 0) return true;
+		if (len > 32 || mx > 32 || mx < len) return true; // (the reserved octet p[11] is to be ignored on receipt: not hostile)
 		uint8_t a[4];
 		memcpy(a, p + 12, 4);
 		wire::mask_bits(a, 4, len);
@@ -115,13 +115,13 @@ inline bool hostile_payload(const uint8_t *p, size_t n)
 	}
 	if (type == wire::IPV6_PREFIX && n == 32) {
 		uint8_t len = p[9], mx = p[10];
-		if (len > 128 || mx > 128 || mx < len || p[11] != 0) return true;
+		if (len > 128 || mx > 128 || mx < len) return true;
 		uint8_t a[16];
 		memcpy(a, p + 12, 16);
 		wire::mask_bits(a, 16, len);
 		return memcmp(a, p + 12, 16) != 0;
 	}
-	if (type == wire::ROUTER_KEY && n == 123) return p[3] != 0;
+	if (type == wire::ROUTER_KEY && n == 123) return false; // (reserved octet p[3]: ignored on receipt)
 	return false;
 }
 
